@@ -12,7 +12,9 @@ SPEC = {
             "(k_paths with/without potential paths on the root and on children, hash, structural_hash, len, is_open, to_string, "
             "paths, trie) with serializations (pickle, to_json/from_json, deepcopy, CLI derivation_tree_to_json -> json.loads "
             "-> from_parse_tree) in random order; judged: decoded == original (structure, ids, string; structure+string for the "
-            "id-less CLI JSON), every earlier observation on the original repeats with the same value, nothing raises. "
+            "id-less CLI JSON); the decoded tree's ==, hash, structural_hash, len and k-paths equal those of a cache-free twin "
+            "rebuilt from the recorded structure, also after serializing the decoded tree a second time; every earlier "
+            "observation on the original repeats with the same value, nothing raises. "
             "formula case = SMTFormula over 1-2 variables with string literals from the hostile pool: pickle round-trip equal "
             "and same sexpr. distinct = distinct (operation-kind sequence, tree-size bucket) / distinct literal tuples",
     "minimum": {"quick": {"tree_histories": 600, "serializations": 3000, "formulas_judged": 500},
